@@ -416,7 +416,12 @@ Definition tag_free (t : str) (ra : option rule) (s : shape) : Prop :=
 Definition dvariant (n : nat) (tg : tagging) (raf : option rule) (v : variant) : Prop :=
   v_type v = None /\ v_as v = None /\ v_untagged v = false /\ dshape n NotOptional (v_shape v) /\
   match tg with
-  | Internal t => match v_shape v with STuple _ => False | s => tag_free t (variant_rename_all raf v) s end
+  | Internal t =>
+      match v_shape v with
+      | STuple [f] => f_inline f = false /\ struct_content R t (f_ty f)   (* a newtype around a struct: `{ tag } & Struct` *)
+      | STuple _ => False
+      | s => tag_free t (variant_rename_all raf v) s
+      end
   | _ => True
   end.
 
@@ -485,7 +490,12 @@ Definition tag_freeb (t : str) (ra : option rule) (s : shape) : bool :=
 Definition dvariantb (n : nat) (tg : tagging) (raf : option rule) (v : variant) : bool :=
   is_none (v_type v) && is_none (v_as v) && negb (v_untagged v) && dshapeb n NotOptional (v_shape v) &&
   match tg with
-  | Internal t => match v_shape v with STuple _ => false | s => tag_freeb t (variant_rename_all raf v) s end
+  | Internal t =>
+      match v_shape v with
+      | STuple [f] => negb (f_inline f) && struct_contentb R t (f_ty f)
+      | STuple _ => false
+      | s => tag_freeb t (variant_rename_all raf v) s
+      end
   | _ => true
   end.
 
@@ -495,7 +505,10 @@ Proof.
   repeat match type of H with (_ && _) = true => let H' := fresh "H" in apply andb_true_iff in H as [H H'] end.
   repeat split; try (apply is_none_eq; assumption); try (apply negb_true_iff; assumption).
   - apply dshapeb_ok; assumption.
-  - destruct tg; try exact I. destruct (v_shape v); try exact I; try discriminate. cbn [tag_freeb tag_free] in *. apply nodupb_NoDup. assumption.
+  - destruct tg; try exact I. destruct (v_shape v) as [|[|f [|f2 fs]]|fs]; try exact I; try discriminate.
+    + match goal with Hx : (negb (f_inline f) && struct_contentb R _ (f_ty f))%bool = true |- _ => apply andb_true_iff in Hx as [Hx1 Hx2] end.
+      split; [apply negb_true_iff; exact Hx1 | apply struct_contentb_ok; exact Hx2].
+    + cbn [tag_freeb tag_free] in *. apply nodupb_NoDup. assumption.
 Qed.
 
 Definition def_okb (d : typedef) : bool :=
@@ -559,6 +572,11 @@ Hypothesis Hty : forall b t a j f, pmono R n t = true -> small_arr t = true -> (
   f <= F -> mem f (ts a) j = true -> wf_json j = true -> acc (dt (rsubst sargs t) j).
 (* ... and of Option *)
 Hypothesis Hopt : forall u j, acc (dt u j) -> acc (dt (ROption u) j).
+(* ... and of a struct that is the content of a newtype variant of an internally tagged enum *)
+Hypothesis Hcontent : forall tg nm t a j f, struct_content R tg t -> pmono R n t = true -> small_arr t = true ->
+  name_of R (rsubst gargs t) = Ok a -> f <= F ->
+  mem f (TInter [TObj OVariant [(quoted_head tg, TLit nm)]; ts a]) j = true -> wf_json j = true ->
+  exists es, j = JObj es /\ assoc tg es = Some (JStr nm) /\ acc (dt (rsubst sargs t) (JObj (remove_key tg es))).
 
 Lemma mem_union_null f a j : mem f (TUnion [a; prim "null"]) j = true -> j = JNull \/ exists f', f = S f' /\ mem f' a j = true.
 Proof.
@@ -802,7 +820,7 @@ Lemma variant_gen_plain a tg raf v x : dvariant tg raf v ->
       match v_shape v with
       | SUnit => x = TObj OVariant [(quoted_head t, TLit name)]
       | SNamed _ => exists vt, sg (Some (t, name)) = Ok vt /\ x = fst vt
-      | STuple _ => False
+      | STuple _ => exists vt, sg None = Ok vt /\ x = TInter [TObj OVariant [(quoted_head t, TLit name)]; fst vt]
       end
   | Adjacent t c =>
       match v_shape v with
@@ -824,8 +842,11 @@ Proof.
     + exists vt. split; [exact Hvt|]. destruct (lone_field (STuple fs)) as [fl|] eqn:Hl; [|inversion Hg; reflexivity].
       destruct fs as [|f0 [|? ?]]; try discriminate. inversion Hl; subst. rewrite Hlone in Hg. inversion Hg; reflexivity.
     + exists vt. split; [exact Hvt|]. cbn in Hg. inversion Hg; reflexivity.
-  - destruct (v_shape v) as [|fs|fs] eqn:Hshape; [| contradiction |].
+  - destruct (v_shape v) as [|fs|fs] eqn:Hshape.
     + cbn in Hvt. inversion Hvt; subst. cbn [snd] in Hg. inversion Hg; reflexivity.
+    + destruct fs as [|f0 [|f2 fs']]; try contradiction. cbn [is_named andb] in Hvt. exists vt. split; [exact Hvt|].
+      destruct Hsh as [Hdf Hsk]. cbn [shape_gen] in Hvt. rewrite Hsk in Hvt. apply bind_ok in Hvt as (a0 & _ & Hvt). inversion Hvt; subst vt.
+      cbn [snd fst lone_field] in Hg. rewrite Hsk in Hg. inversion Hg; reflexivity.
     + cbn [is_named andb negb] in Hvt. exists vt. split; [exact Hvt|].
       assert (Hne : fs <> [] \/ Some (t, name) <> None) by (right; discriminate).
       destruct (named_gen ra NotOptional (Some (t, name)) fs vt Hsh Hne Hvt) as (props & _ & _ & y & Hy). rewrite Hy in Hg. inversion Hg; reflexivity.
@@ -897,9 +918,18 @@ Proof.
       eapply shape_acc; [exact Hsh | exact Hvt | | exact Hc | eapply wf_obj_in; [exact Hwf | left; reflexivity]]. lia.
   - (* internally tagged *)
     destruct (find_variant_live a vs v 0 Hnames Hin Hsk) as (i' & Hfind).
-    destruct (v_shape v) as [|fs|fs] eqn:Hshape; [| contradiction |].
+    destruct (v_shape v) as [|fs|fs] eqn:Hshape.
     + subst x. cbn [tsubst map fst snd] in Hm. apply mem_obj in Hm as (f2 & es & -> & -> & Hm).
       rewrite (tag_entry _ _ _ _ _ Hm), Hfind, Hshape. apply acc_ok.
+    + (* a newtype variant around a struct *)
+      destruct fs as [|f0 [|f2 fs']]; try contradiction. destruct Hkd as [Hni Hct]. destruct Hsh as [Hdf Hskf].
+      destruct Hx' as (vt & Hvt & ->). cbn [shape_gen] in Hvt. rewrite Hskf in Hvt. apply bind_ok in Hvt as (a0 & Ha0 & Hvt). inversion Hvt; subst vt; clear Hvt.
+      rewrite (value_ty_d NotOptional f0 Hdf) in Ha0. unfold tytext in Ha0. rewrite Hni in Ha0. cbn [fst tsubst map snd] in Hm.
+      pose proof Hdf as (_ & _ & Hsty & Hmono & _ & Hsm & _).
+      assert (Hf1 : f1 <= F) by lia.
+      destruct (Hcontent t (vname a v) (f_ty f0) a0 j f1 Hct Hmono Hsm Ha0 Hf1 Hm Hwf) as (es & -> & Hat & Hacc).
+      rewrite Hat, Hfind, Hshape. apply dbind_acc; [|intros; apply acc_ok]. cbn [shape_de]. apply dbind_acc; [|intros; apply acc_ok].
+      rewrite Hsty. exact Hacc.
     + destruct Hx' as (vt & Hvt & ->). cbn [tag_free] in Hkd. cbn [De_proofs.dshape] in Hsh.
       assert (Hf1 : f1 <= F) by lia.
       destruct (tagged_named_acc (variant_ra raf v) NotOptional fs t (vname a v) vt j f1 Hsh Hkd Hvt Hf1 Hm Hwf) as (es & -> & Hat & _ & Hacc).
@@ -1003,77 +1033,164 @@ Definition PB (F g : nat) : Prop := forall n t a j f,
 Lemma mem_fuel_pos f t j : memberb E f t j = true -> 1 <= f.
 Proof. destruct f; [discriminate | lia]. Qed.
 
-Lemma PB_from_PA F : PA F -> forall g, PB F g.
+(* what def_acc / named_acc need of the types of a definition whose declaration is read at the names of the arguments *)
+Lemma hty_A F1 (HA : PA F1) (HB : forall g, PB F1 g) d args l ps g' n1 :
+  length args = nparams d -> forallb mono_ty args = true -> forallb small_arr args = true ->
+  omap_list (name_of R) args = Ok l -> NoDup (map fst (c_params (attrs_of d))) -> map fst ps = map fst (c_params (attrs_of d)) ->
+  F1 * S gf + g' <= n1 ->
+  forall b t0 a0 j0 f0, pmono R (nparams d) t0 = true -> small_arr t0 = true -> (b = true -> nparams d = 0) ->
+    tytext R (lib_inline R (gen g')) (dummies (attrs_of d)) b t0 = Ok a0 -> f0 <= F1 ->
+    memberb E f0 (tsubst (bind_params ps l) (bind_params ps l) a0) j0 = true -> wf_json j0 = true ->
+    acc (de_ty R (SerdeDe.ddef is_upper R n1) (rsubst args t0) j0).
 Proof.
-  intros HA. induction g as [|g' IHg]; intros n t a j f Hn Hf Hm Hsm Ha Hmem Hwf; unfold de.
-  - eapply (lib_inline_de R E (SerdeDe.ddef is_upper R n) F (gen 0)); [|exact Hm | exact Hsm | exact Ha | exact Hf | exact Hmem | exact Hwf].
-    intros id d args r j0 f0 _ _ _ _ Hr. cbn in Hr. discriminate.
-  - eapply (lib_inline_de R E (SerdeDe.ddef is_upper R n) F (gen (S g'))); [|exact Hm | exact Hsm | exact Ha | exact Hf | exact Hmem | exact Hwf].
-    clear t a j f Hf Hm Hsm Ha Hmem Hwf.
-    intros id d args r j f Hlk Hlen Hargs Hsargs Hr Hf Hmem Hwf. cbn [Gen.gen] in Hr.
-    destruct (de_env_facts _ _ Hlk) as (Hpd & Hnp & _).
-    pose proof (mem_fuel_pos _ _ _ Hmem) as Hpos.
-    destruct n as [|n1]; [lia|]. change (SerdeDe.ddef is_upper R (S n1)) with (def_de is_upper (de_ty R (SerdeDe.ddef is_upper R n1))).
-    rewrite <- (tsubst_none (fst r)) in Hmem.
-    eapply (def_acc is_upper is_alnum is_numeric R E (lib_inline R (gen g')) (lib_flat R (gen g')) (nparams d) args args
-              (fun _ => None) (fun _ => None) (de_ty R (SerdeDe.ddef is_upper R n1)) F);
-      [| apply de_option_acc | exact Hpd | exact Hr | exact Hf | exact Hmem | exact Hwf].
-    intros b t0 a0 j0 f0 Hpm Hsa Hb Ha0 Hf0 Hm0 Hwf0. rewrite tsubst_none in Hm0.
-    assert (Hmono : mono_ty (rsubst args t0) = true).
-    { apply (pmono_subst R (nparams d) args); [apply Forall_forall; rewrite forallb_forall in Hargs; exact Hargs | exact Hlen | exact Hpm]. }
-    assert (Hsmall : small_arr (rsubst args t0) = true) by (apply small_arr_subst; assumption).
-    unfold tytext in Ha0. destruct b.
-    + eapply (IHg n1 _ a0 j0 f0); [lia | exact Hf0 | exact Hmono | exact Hsmall | exact Ha0 | exact Hm0 | exact Hwf0].
-    + eapply (HA n1 _ a0 j0 f0); [lia | exact Hf0 | exact Hmono | exact Hsmall | exact Ha0 | exact Hm0 | exact Hwf0].
+  intros Hlen Hargs Hsargs Hl Hnp Hps Hn1 b t0 a0 j0 f0 Hpm Hsa Hb Ha0 Hf0 Hm0 Hwf0.
+  assert (Hmono : mono_ty (rsubst args t0) = true).
+  { apply (pmono_subst R (nparams d) args); [apply Forall_forall; rewrite forallb_forall in Hargs; exact Hargs | exact Hlen | exact Hpm]. }
+  assert (Hsmall : small_arr (rsubst args t0) = true) by (apply small_arr_subst; assumption).
+  unfold tytext in Ha0. destruct b.
+  - (* inline: only in definitions without parameters *)
+    specialize (Hb eq_refl). unfold nparams in Hb, Hlen. rewrite Hb in Hlen.
+    destruct args; [|discriminate]. assert (Hc : c_params (attrs_of d) = []) by (destruct (c_params (attrs_of d)); [reflexivity | discriminate]).
+    unfold dummies in Ha0. rewrite Hc in Ha0, Hps. cbn [map] in Ha0, Hps.
+    destruct ps; [|discriminate]. cbn in Hl. inversion Hl; subst l.
+    cbn [bind_params] in Hm0. rewrite tsubst_none in Hm0.
+    eapply (HB g' n1 _ a0 j0 f0); [exact Hn1 | exact Hf0 | exact Hmono | exact Hsmall | exact Ha0 | exact Hm0 | exact Hwf0].
+  - rewrite dummies_eq in Ha0.
+    eapply (HA n1 (rsubst args t0) (tsubst (bind_params ps l) (bind_params ps l) a0) j0 f0);
+      [lia | exact Hf0 | exact Hmono | exact Hsmall | | exact Hm0 | exact Hwf0].
+    exact (name_of_tsubst R (nparams d) (map fst (c_params (attrs_of d))) args l ps Hnp Hps (map_length _ _) Hl Hlen t0 a0 Hpm Ha0).
 Qed.
 
-Lemma PA_all : forall F, PA F.
+Lemma de_option_acc' n1 u j : acc (de_ty R (SerdeDe.ddef is_upper R n1) u j) -> acc (de_ty R (SerdeDe.ddef is_upper R n1) (ROption u) j).
+Proof. apply de_option_acc. Qed.
+
+(* the content of a newtype variant of an internally tagged enum: a member of `{ tag } & Struct` carries the tag, and what is
+   left when the tag is taken out is read as the struct *)
+Lemma content_A F1 (HA : PA F1) (HB : forall g, PB F1 g) tg nm t0 a0 j f n2 :
+  struct_content R tg t0 -> mono_ty t0 = true -> small_arr t0 = true -> name_of R t0 = Ok a0 -> f <= S F1 ->
+  memberb E f (TInter [TObj OVariant [(quoted_head tg, TLit nm)]; a0]) j = true -> wf_json j = true ->
+  F1 * S gf + gf <= S n2 ->
+  exists es, j = JObj es /\ assoc tg es = Some (JStr nm) /\ acc (de is_upper R (S n2) t0 (JObj (remove_key tg es))).
 Proof.
-  induction F as [|F1 IH]; intros n t a j f Hn Hf Hm Hsm Ha Hmem Hwf; unfold de.
-  - eapply (lib_de R E (SerdeDe.ddef is_upper R n) 0); [|exact Hm | exact Hsm | exact Ha | exact Hf | exact Hmem | exact Hwf].
-    intros id d args l j0 f0 _ _ _ _ _ Hf0 Hmem0 _. assert (f0 = 0) by lia. subst. discriminate.
-  - pose proof (PB_from_PA F1 IH) as IHB.
-    eapply (lib_de R E (SerdeDe.ddef is_upper R n) (S F1)); [|exact Hm | exact Hsm | exact Ha | exact Hf | exact Hmem | exact Hwf].
-    clear t a j f Hf Hm Hsm Ha Hmem Hwf.
-    intros id d args l j f Hlk Hlen Hargs Hsargs Hl Hf Hmem Hwf.
-    destruct f as [|f1]; [discriminate|]. cbn [memberb] in Hmem. unfold unfold_ref in Hmem.
-    destruct (de_env_facts _ _ Hlk) as (Hpd & Hnp & dc & Hdl & Hdc).
-    rewrite Hdl in Hmem. destruct (plain_decl is_upper is_alnum is_numeric R gf d dc Hdc) as (r & Hr & _ & Hps & Hbody).
-    rewrite Hbody in Hmem.
-    destruct n as [|n1]; [cbn in Hn; lia|]. change (SerdeDe.ddef is_upper R (S n1)) with (def_de is_upper (de_ty R (SerdeDe.ddef is_upper R n1))).
-    apply gen_ok_unfold in Hr as (g' & Hgf & Hr).
-    eapply (def_acc is_upper is_alnum is_numeric R E (lib_inline R (gen g')) (lib_flat R (gen g')) (nparams d) args (dummies (attrs_of d))
-              (bind_params (d_params dc) l) (bind_params (d_params dc) l) (de_ty R (SerdeDe.ddef is_upper R n1)) F1);
-      [| apply de_option_acc | exact Hpd | exact Hr | | exact Hmem | exact Hwf]; [|lia].
-    intros b t0 a0 j0 f0 Hpm Hsa Hb Ha0 Hf0 Hm0 Hwf0.
-    assert (Hmono : mono_ty (rsubst args t0) = true).
-    { apply (pmono_subst R (nparams d) args); [apply Forall_forall; rewrite forallb_forall in Hargs; exact Hargs | exact Hlen | exact Hpm]. }
-    assert (Hsmall : small_arr (rsubst args t0) = true) by (apply small_arr_subst; assumption).
-    assert (Hn1 : F1 * S gf + g' <= n1) by (cbn in Hn; lia).
-    unfold tytext in Ha0. destruct b.
-    + (* inline: only in definitions without parameters *)
-      specialize (Hb eq_refl). unfold nparams in Hb, Hlen. rewrite Hb in Hlen.
-      destruct args; [|discriminate]. assert (Hc : c_params (attrs_of d) = []) by (destruct (c_params (attrs_of d)); [reflexivity | discriminate]).
-      unfold dummies in Ha0. rewrite Hc in Ha0, Hps. cbn [map] in Ha0, Hps.
-      destruct (d_params dc); [|discriminate]. cbn in Hl. inversion Hl; subst l.
-      cbn [bind_params] in Hm0. rewrite tsubst_none in Hm0.
-      eapply (IHB g' n1 _ a0 j0 f0); [exact Hn1 | exact Hf0 | exact Hmono | exact Hsmall | exact Ha0 | exact Hm0 | exact Hwf0].
-    + rewrite dummies_eq in Ha0.
-      eapply (IH n1 (rsubst args t0) (tsubst (bind_params (d_params dc) l) (bind_params (d_params dc) l) a0) j0 f0);
-        [lia | exact Hf0 | exact Hmono | exact Hsmall | | exact Hm0 | exact Hwf0].
-      exact (name_of_tsubst R (nparams d) (map fst (c_params (attrs_of d))) args l (d_params dc) Hnp Hps (map_length _ _) Hl Hlen t0 a0 Hpm Ha0).
+  intros Hct Hm0 Hsm0 Ha0 Hf Hmem Hwf Hn2.
+  destruct t0 as [| | | | | | | | |id2 args2| |]; try contradiction.
+  cbn [struct_content] in Hct. unfold Sem_derive_proofs.mono_ty in Hm0. cbn [pmono] in Hm0. cbn [small_arr] in Hsm0. cbn [Gen.name_of] in Ha0.
+  destruct (lookup R id2) as [d2|] eqn:Hlk2; [|contradiction].
+  destruct d2 as [a2 s2|]; [|contradiction]. destruct s2 as [| |fs2]; try contradiction. destruct fs2 as [|fl0 fs2]; [contradiction|].
+  destruct Hct as [Htag2 Hnin]. apply andb_true_iff in Hm0 as [Hlen2 Hargs2]. apply Nat.eqb_eq in Hlen2.
+  apply bind_ok in Ha0 as (l2 & Hl2 & Ha0). inversion Ha0; subst a0; clear Ha0.
+  set (d2 := DStruct a2 (SNamed (fl0 :: fs2))) in *.
+  destruct (de_env_facts _ _ Hlk2) as (Hpd2 & Hnp2 & dc2 & Hdl2 & Hdc2).
+  destruct (plain_decl is_upper is_alnum is_numeric R gf d2 dc2 Hdc2) as (r2 & Hr2 & _ & Hps2 & Hbody2).
+  apply gen_ok_unfold in Hr2 as (g' & Hgf & Hr2).
+  destruct Hpd2 as (Hdty & Has & _ & Hsh2 & _). cbn [attrs_of d2] in Hdty, Has.
+  unfold def_body in Hr2. cbn [attrs_of d2] in Hr2. rewrite Hdty, Has, Htag2 in Hr2.
+  assert (Hne : fl0 :: fs2 <> [] \/ @None (str * str) <> None) by (left; discriminate).
+  cbn [De_proofs.dshape] in Hsh2.
+  destruct (named_gen is_alnum is_numeric R (lib_inline R (gen g')) (lib_flat R (gen g')) (nparams d2) (dummies (attrs_of d2))
+              (c_rename_all a2) (c_optional_fields a2) None (fl0 :: fs2) r2 Hsh2 Hne Hr2) as (props2 & Hp2 & Hfr2 & _).
+  set (s2 := bind_params (d_params dc2) l2) in *.
+  set (ps' := map (fun p : phead * tsty => (fst p, tsubst s2 s2 (snd p))) props2).
+  (* the normal form of the intersection *)
+  assert (Hdnf : forall k alts, dnf E k (TInter [TObj OVariant [(quoted_head tg, TLit nm)]; TRef (ts_ident d2) l2]) = Some alts ->
+                 alts = [((quoted_head tg, TLit nm) :: ps', [])]).
+  { intros k alts Hk. destruct k as [|k1]; [discriminate|]. cbn [dnf fold_right] in Hk.
+    destruct k1 as [|k2]; [discriminate|]. cbn [dnf] in Hk. unfold unfold_ref in Hk. rewrite Hdl2 in Hk. rewrite Hbody2, Hfr2 in Hk. cbn [tsubst] in Hk.
+    destruct k2 as [|k3]; [discriminate|]. cbn [dnf] in Hk. destruct k3 as [|k4]; [discriminate|]. cbn [dnf] in Hk.
+    cbn [flat_map map app] in Hk. unfold alt_merge in Hk. cbn [fst snd app] in Hk. rewrite !app_nil_r in Hk. inversion Hk. reflexivity. }
+  destruct f as [|f1]; [discriminate|]. cbn [memberb] in Hmem. destruct j as [| | | | | |es]; try discriminate.
+  destruct (dnf E f1 (TInter [TObj OVariant [(quoted_head tg, TLit nm)]; TRef (ts_ident d2) l2])) as [alts|] eqn:Hd; [|discriminate].
+  rewrite (Hdnf _ _ Hd) in Hmem. cbn [existsb] in Hmem. rewrite orb_false_r in Hmem.
+  exists es. split; [reflexivity|].
+  pose proof (alt_member_props _ _ _ _ Hmem (quoted_head tg) (TLit nm) (or_introl eq_refl)) as Ht. cbn [quoted_head p_key p_optional] in Ht.
+  destruct (assoc tg es) as [tv|] eqn:Hat; [|discriminate]. apply mem_lit in Ht. subst tv. split; [reflexivity|].
+  (* the fields, read from what is left *)
+  unfold de. cbn [de_ty]. rewrite Hlk2. change (SerdeDe.ddef is_upper R (S n2)) with (def_de is_upper (de_ty R (SerdeDe.ddef is_upper R n2))).
+  cbn [def_de d2 shape_de].
+  assert (Hsmall2 : forallb small_arr args2 = true) by exact Hsm0.
+  eapply (named_acc is_alnum is_numeric R E (lib_inline R (gen g')) (nparams d2) args2 (dummies (attrs_of d2)) s2 s2
+            (de_ty R (SerdeDe.ddef is_upper R n2)) F1
+            (hty_A F1 HA HB d2 args2 l2 (d_params dc2) g' n2 Hlen2 Hargs2 Hsmall2 Hl2 Hnp2 Hps2 ltac:(lia))
+            (de_option_acc' n2) (c_rename_all a2) (c_optional_fields a2) (fl0 :: fs2) props2 (remove_key tg es) f1 Hsh2 Hp2);
+    [lia | | apply wf_remove_key; exact Hwf].
+  intros p t0 Hin. rewrite assoc_remove_key.
+  - apply (alt_member_props _ _ _ _ Hmem p (tsubst s2 s2 t0)). right. unfold ps'. apply in_map_iff. exists (p, t0). split; [reflexivity | exact Hin].
+  - intros Heq. apply Hnin. rewrite <- (props_keys is_alnum is_numeric R (lib_inline R (gen g')) (dummies (attrs_of d2)) (c_rename_all a2) (c_optional_fields a2) (fl0 :: fs2) props2 Hp2).
+    rewrite <- Heq. change (p_key p) with ((fun q : phead * tsty => p_key (fst q)) (p, t0)). apply in_map. exact Hin.
+Qed.
+
+Lemma P_all : forall F, PA F /\ (forall g, PB F g).
+Proof.
+  induction F as [|F1 [IHA IHB]].
+  - split.
+    + intros n t a j f Hn Hf Hm Hsm Ha Hmem Hwf. assert (f = 0) by lia. subst. discriminate.
+    + intros g n t a j f Hn Hf Hm Hsm Ha Hmem Hwf. assert (f = 0) by lia. subst. discriminate.
+  - assert (HA : PA (S F1)).
+    { intros n t a j f Hn Hf Hm Hsm Ha Hmem Hwf. unfold de.
+      eapply (lib_de R E (SerdeDe.ddef is_upper R n) (S F1)); [|exact Hm | exact Hsm | exact Ha | exact Hf | exact Hmem | exact Hwf].
+      clear t a j f Hf Hm Hsm Ha Hmem Hwf.
+      intros id d args l j f Hlk Hlen Hargs Hsargs Hl Hf Hmem Hwf.
+      destruct f as [|f1]; [discriminate|]. cbn [memberb] in Hmem. unfold unfold_ref in Hmem.
+      destruct (de_env_facts _ _ Hlk) as (Hpd & Hnp & dc & Hdl & Hdc).
+      rewrite Hdl in Hmem. destruct (plain_decl is_upper is_alnum is_numeric R gf d dc Hdc) as (r & Hr & _ & Hps & Hbody).
+      rewrite Hbody in Hmem.
+      destruct n as [|n1]; [cbn in Hn; lia|]. change (SerdeDe.ddef is_upper R (S n1)) with (def_de is_upper (de_ty R (SerdeDe.ddef is_upper R n1))).
+      apply gen_ok_unfold in Hr as (g' & Hgf & Hr).
+      assert (Hn1 : F1 * S gf + g' <= n1) by (cbn in Hn; lia).
+      eapply (def_acc is_upper is_alnum is_numeric R E (lib_inline R (gen g')) (lib_flat R (gen g')) (nparams d) args (dummies (attrs_of d))
+                (bind_params (d_params dc) l) (bind_params (d_params dc) l) (de_ty R (SerdeDe.ddef is_upper R n1)) F1
+                (hty_A F1 IHA IHB d args l (d_params dc) g' n1 Hlen Hargs Hsargs Hl Hnp Hps Hn1) (de_option_acc' n1));
+        [| exact Hpd | exact Hr | | exact Hmem | exact Hwf]; [|lia].
+      (* the content of internally tagged newtype variants *)
+      intros tg nm t0 a0 j0 f0 Hct Hpm Hsa Ha0 Hf0 Hm0 Hwf0.
+      assert (Hmono : mono_ty (rsubst args t0) = true).
+      { apply (pmono_subst R (nparams d) args); [apply Forall_forall; rewrite forallb_forall in Hargs; exact Hargs | exact Hlen | exact Hpm]. }
+      assert (Hsmall : small_arr (rsubst args t0) = true) by (apply small_arr_subst; assumption).
+      rewrite dummies_eq in Ha0.
+      pose proof (name_of_tsubst R (nparams d) (map fst (c_params (attrs_of d))) args l (d_params dc) Hnp Hps (map_length _ _) Hl Hlen t0 a0 Hpm Ha0) as Hname.
+      destruct n1 as [|n2]; [cbn in Hn; lia|].
+      assert (Hct' : struct_content R tg (rsubst args t0)) by (destruct t0; try contradiction; exact Hct).
+      apply (content_A F1 IHA IHB tg nm (rsubst args t0) _ j0 f0 n2 Hct' Hmono Hsmall Hname ltac:(lia) Hm0 Hwf0). cbn in Hn. lia. }
+    split; [exact HA|].
+    induction g as [|g' IHg]; intros n t a j f Hn Hf Hm Hsm Ha Hmem Hwf; unfold de.
+    + eapply (lib_inline_de R E (SerdeDe.ddef is_upper R n) (S F1) (gen 0)); [|exact Hm | exact Hsm | exact Ha | exact Hf | exact Hmem | exact Hwf].
+      intros id d args r j0 f0 _ _ _ _ Hr. cbn in Hr. discriminate.
+    + eapply (lib_inline_de R E (SerdeDe.ddef is_upper R n) (S F1) (gen (S g'))); [|exact Hm | exact Hsm | exact Ha | exact Hf | exact Hmem | exact Hwf].
+      clear t a j f Hf Hm Hsm Ha Hmem Hwf.
+      intros id d args r j f Hlk Hlen Hargs Hsargs Hr Hf Hmem Hwf. cbn [Gen.gen] in Hr.
+      destruct (de_env_facts _ _ Hlk) as (Hpd & Hnp & dc & _ & Hdc).
+      destruct (plain_decl is_upper is_alnum is_numeric R gf d dc Hdc) as (r0 & Hr0 & _). apply gen_ok_unfold in Hr0 as (g0 & Hgf & _).
+      destruct n as [|n1]; [cbn in Hn; lia|]. change (SerdeDe.ddef is_upper R (S n1)) with (def_de is_upper (de_ty R (SerdeDe.ddef is_upper R n1))).
+      rewrite <- (tsubst_none (fst r)) in Hmem.
+      eapply (def_acc is_upper is_alnum is_numeric R E (lib_inline R (gen g')) (lib_flat R (gen g')) (nparams d) args args
+                (fun _ => None) (fun _ => None) (de_ty R (SerdeDe.ddef is_upper R n1)) (S F1));
+        [| apply de_option_acc | | exact Hpd | exact Hr | exact Hf | exact Hmem | exact Hwf].
+      * intros b t0 a0 j0 f0 Hpm Hsa Hb Ha0 Hf0 Hm0 Hwf0. rewrite tsubst_none in Hm0.
+        assert (Hmono : mono_ty (rsubst args t0) = true).
+        { apply (pmono_subst R (nparams d) args); [apply Forall_forall; rewrite forallb_forall in Hargs; exact Hargs | exact Hlen | exact Hpm]. }
+        assert (Hsmall : small_arr (rsubst args t0) = true) by (apply small_arr_subst; assumption).
+        unfold tytext in Ha0. destruct b.
+        -- eapply (IHg n1 _ a0 j0 f0); [cbn in Hn |- *; lia | exact Hf0 | exact Hmono | exact Hsmall | exact Ha0 | exact Hm0 | exact Hwf0].
+        -- eapply (HA n1 _ a0 j0 f0); [cbn in Hn |- *; lia | exact Hf0 | exact Hmono | exact Hsmall | exact Ha0 | exact Hm0 | exact Hwf0].
+      * intros tg nm t0 a0 j0 f0 Hct Hpm Hsa Ha0 Hf0 Hm0 Hwf0. rewrite tsubst_none in Hm0.
+        assert (Hmono : mono_ty (rsubst args t0) = true).
+        { apply (pmono_subst R (nparams d) args); [apply Forall_forall; rewrite forallb_forall in Hargs; exact Hargs | exact Hlen | exact Hpm]. }
+        assert (Hsmall : small_arr (rsubst args t0) = true) by (apply small_arr_subst; assumption).
+        destruct n1 as [|n2]; [cbn in Hn; lia|].
+        assert (Hct' : struct_content R tg (rsubst args t0)) by (destruct t0; try contradiction; exact Hct).
+        apply (content_A F1 IHA IHB tg nm (rsubst args t0) a0 j0 f0 n2 Hct' Hmono Hsmall Ha0 Hf0 Hm0 Hwf0). cbn in Hn. lia.
 Qed.
 
 Theorem member_accepted : forall F n t a j f,
   F * S gf <= n -> f <= F -> mono_ty t = true -> small_arr t = true -> name_of R t = Ok a ->
   memberb E f a j = true -> wf_json j = true -> acc (de is_upper R n t j).
-Proof. exact PA_all. Qed.
+Proof. intros F. exact (proj1 (P_all F)). Qed.
 
 (* the same for the type TS::inline() reports *)
 Theorem member_accepted_inline : forall F g n t a j f,
   F * S gf + g <= n -> f <= F -> mono_ty t = true -> small_arr t = true -> lib_inline R (gen g) t = Ok a ->
   memberb E f a j = true -> wf_json j = true -> acc (de is_upper R n t j).
-Proof. intros F g. exact (PB_from_PA F (PA_all F) g). Qed.
+Proof. intros F g. exact (proj2 (P_all F) g). Qed.
 End DeKnot.
 
 (* ============================ the library layer on its own ====================================== *)
